@@ -34,6 +34,9 @@ def cases(tier, seed):
         if cfg["env"] == "smtwtp":
             for r in range(reps):
                 out.append(dict(kind="other", cfg=cfg, family="boundary", B=16, s=rnd.randrange(10**6)))
+        if cfg["env"] in ("fjsp", "jssp") and cfg.get("pmax", 9) <= 99 and cfg["jobs"] <= 6:
+            for r in range(max(2, reps // 3)):
+                out.append(dict(kind="other", cfg=cfg, family="sentinel", B=16, s=rnd.randrange(10**6)))
         if cfg["env"] == "ffsp" and cfg.get("tmax", 6) <= 6:
             for r in range(max(2, reps // 3)):
                 out.append(dict(kind="ffsp_pomo", cfg=cfg, B=rnd.choice([1, 3, 4]), starts=rnd.choice([2, 6]), s=rnd.randrange(10**6)))
